@@ -1,8 +1,22 @@
 import VerylModel.Driver.Store
+import VerylModel.Driver.IdCodec
+import VerylModel.Driver.Register
+import VerylModel.Driver.TokenPos
+import VerylModel.Driver.Migrator
 import VerylModel.Driver.Incr
+import VerylModel.Driver.Svlv
+import VerylModel.Driver.Random
+import VerylModel.Driver.Words
 
 def main (args : List String) : IO UInt32 := do
   match args with
   | ["store"] => VerylModel.Driver.Store.run; return 0
+  | ["fragment"] => VerylModel.Driver.IdCodec.run; return 0
+  | ["order"] => VerylModel.Driver.Register.run; return 0
+  | ["tokens"] => VerylModel.Driver.TokenPos.run; return 0
+  | ["migrate"] => VerylModel.Driver.Migrator.run; return 0
   | ["incr"] => VerylModel.Driver.Incr.run; return 0
+  | ["svlv"] => VerylModel.Driver.Svlv.run; return 0
+  | ["random"] => VerylModel.Driver.Random.run; return 0
+  | ["words"] => VerylModel.Driver.Words.run; return 0
   | _ => IO.eprintln s!"vmodel: unknown domain {args}"; return 2
